@@ -1,9 +1,10 @@
+from datetime import datetime
 from typing import Any, TypeVar
 
-import reactivex
 from reactivex import Observable, abc, typing
-from reactivex import operators as ops
+from reactivex.disposable import SerialDisposable
 from reactivex.internal import curry_flip
+from reactivex.scheduler import TimeoutScheduler
 
 _T = TypeVar("_T")
 
@@ -29,12 +30,24 @@ def delay_subscription_(
         Time-shifted sequence.
     """
 
-    def mapper(_: Any) -> Observable[_T]:
-        return reactivex.empty()
+    def subscribe(
+        observer: abc.ObserverBase[_T],
+        scheduler_: abc.SchedulerBase | None = None,
+    ) -> abc.DisposableBase:
+        _scheduler = scheduler or scheduler_ or TimeoutScheduler.singleton()
+        subscription = SerialDisposable()
 
-    return source.pipe(
-        ops.delay_with_mapper(reactivex.timer(duetime, scheduler=scheduler), mapper)
-    )
+        def action(_: abc.SchedulerBase, __: Any = None) -> None:
+            # Subscribe late, then pass the source through unchanged
+            subscription.disposable = source.subscribe(observer, scheduler=scheduler_)
+
+        if isinstance(duetime, datetime):
+            subscription.disposable = _scheduler.schedule_absolute(duetime, action)
+        else:
+            subscription.disposable = _scheduler.schedule_relative(duetime, action)
+        return subscription
+
+    return Observable(subscribe)
 
 
 __all__ = ["delay_subscription_"]
